@@ -142,14 +142,28 @@ func c15Run(c c15Case) (out Outcome) {
 		// (under a real-time watchdog: a compressor that never returns keeps allocating)
 		done := make(chan []byte, 1)
 		go func() { done <- region.VerifCompressCellblocks(codec, bufs, uint32(len(payload))) }()
+		stuck := false
 		select {
 		case stream = <-done:
 		case <-time.After(10 * time.Second):
+			if spin, _ := spinning("region.VerifCompressCellblocks", 20); spin {
+				stuck = true
+			} else {
+				// slow (a loaded machine), not stuck
+				select {
+				case stream = <-done:
+				case <-time.After(5 * time.Minute):
+					out.Labels = append(out.Labels, "inconclusive_compress_slow")
+					return out
+				}
+			}
+		}
+		if stuck {
 			lens := []int{}
 			for _, b := range bufs {
 				lens = append(lens, len(b))
 			}
-			return viol("client-spin@compressCellblocks", "compressing %d bytes given as buffers of lengths %v had not returned after 10 s of real time", len(payload), lens)
+			return viol("client-spin@compressCellblocks", "compressing %d bytes given as buffers of lengths %v had not returned after 10 s of real time and keeps running", len(payload), lens)
 		}
 		out.Labels = append(out.Labels, "client_stream")
 		if len(bufs) > 1 {
